@@ -46,13 +46,7 @@ func (s *Sched) nodeWalk(fn *ssa.Function) nodeWalk {
 	}
 	w.Fn = walkFn
 	if qc := s.quantifierCall(walkFn); qc != nil && len(ir.Loops(walkFn)) == 0 {
-		var pred *ssa.Function
-		switch x := ir.Resolve(qc.Call.Args[1]).(type) {
-		case *ssa.MakeClosure:
-			pred, _ = x.Fn.(*ssa.Function)
-		case *ssa.Function:
-			pred = x
-		}
+		pred := funcOfValue(qc.Call.Args[1])
 		if pred == nil || !strings.HasPrefix(ir.CalleeName(&qc.Call), "slices.ContainsFunc") {
 			w.Why = "a slices search in a form other than ContainsFunc(nodes, pred)"
 			return w
